@@ -26,7 +26,8 @@ def programs(tier: str, seed: int, n_random: int, *, max_eq: int = 4, with_verba
         if with_verbatim and rnd.random() < 0.25:
             frag = rnd.choice(["len('a  b')", "max( 1,  2 )", "( 1 +  2 )", "float('1.5')", "abs( -3 )", "len( 'x ( y )' )"])
             k = rnd.randrange(len(p))
-            p[k] = G.Eq(p[k].lhs, G.Bin('+', p[k].rhs, G.Verb(frag)))
+            # the fragment stands after or before the other terms of the equation
+            p[k] = G.Eq(p[k].lhs, G.Bin('+', p[k].rhs, G.Verb(frag)) if rnd.random() < 0.5 else G.Bin('+', G.Verb(frag), p[k].rhs))
         out.append((f'rand{i:04d}', p))
     return out
 
@@ -53,7 +54,7 @@ class EvaluateDifferential(BoundedCheck):
     name = 'c01.evaluate-differential'
     props = ('C01', 'C04', 'C20')
     concretises = ('<generated>.Model._evaluate',)
-    bound_quick = 'catalogue + 250 seeded random programs (1-4 equations, depth <= 3, verbatim fragments), 2 layouts each, 2 random data sets, every feasible t'
+    bound_quick = 'catalogue + 250 seeded random programs (1-4 equations, depth <= 3, verbatim fragments), 2 layouts each, 2 random data sets (one of floats as arrays, one of whole numbers as Python lists), every feasible t'
     bound_thorough = 'catalogue + 4000 seeded random programs, 3 layouts each'
     required_covers = ('lag', 'lead', 'param', 'error', 'call', 'cond', 'verbatim', 'multi-equation')
 
@@ -100,14 +101,20 @@ class EvaluateDifferential(BoundedCheck):
         lags, leads = ref['lags'], ref['leads']
         n = lags + leads + 3
         rnd = random.Random(case['seed'])
-        for _ in range(2):
+        for round_ in range(2):
             data = random_data(rnd, ref['names'], n)
+            if round_ == 1:
+                # second data set: whole numbers handed to the constructor as plain Python lists (the model's dtype still applies)
+                data = {nm: np.array([float(rnd.randint(1, 4)) for _ in range(n)]) for nm in ref['names']}
             with warnings.catch_warnings():
                 warnings.simplefilter('ignore')
                 with np.errstate(all='ignore'):
                     for t in range(lags, n - leads):
                         try:
-                            m = Model(range(n), **{k: v.copy() for k, v in data.items()})
+                            if round_ == 1:
+                                m = Model(range(n), **{k: [int(x) for x in v] for k, v in data.items()})
+                            else:
+                                m = Model(range(n), **{k: v.copy() for k, v in data.items()})
                         except Exception as ex:  # noqa: BLE001
                             out.append(Violation('built class can be instantiated with the script\'s variables', 'c01.instantiate', jcase, 'instance',
                                                  f'{type(ex).__name__}: {ex}', 'instantiate'))
